@@ -428,6 +428,57 @@ func checkKindPositions(c *core.Ctx, k intKind, x *big.Int) {
 		}
 		c.Outcome("exact")
 	}
+	// a value the wire type cannot carry, as a map VALUE with another entry after it: whatever order the
+	// map is written in, the refusal must survive (16 fresh maps: Go's iteration order is random)
+	if !fits {
+		if !c.Begin() {
+			return
+		}
+		c.NontrivialN(1)
+		for rep := 0; rep < 16; rep++ {
+			h := reflect.New(k.holder)
+			m := reflect.MakeMap(h.Elem().FieldByName("M").Type())
+			one := reflect.New(k.typ).Elem()
+			two := reflect.New(k.typ).Elem()
+			if k.signed {
+				one.SetInt(1)
+				two.SetInt(2)
+			} else {
+				one.SetUint(1)
+				two.SetUint(2)
+			}
+			m.SetMapIndex(one, kv)
+			m.SetMapIndex(two, one)
+			h.Elem().FieldByName("M").Set(m)
+			_, nm, _ := Maps(h.Interface())
+			enc := Encode(h.Interface(), nm)
+			if enc.Panic != "" {
+				report("entry-of-two", "encode", "panic", enc.Panic, "")
+				return
+			}
+			if enc.Err == nil {
+				tm, _, _ := Maps(h.Interface())
+				dec := Decode(enc.Bytes, tm)
+				ok := false
+				if dec.OK() {
+					if d, isPtr := dec.Val.(interface{}); isPtr {
+						dv := reflect.ValueOf(d)
+						if dv.Kind() == reflect.Ptr && dv.Elem().Type() == k.holder {
+							dm := dv.Elem().FieldByName("M")
+							if v1 := dm.MapIndex(one); dm.Len() == 2 && v1.IsValid() && bigOf(v1).Cmp(x) == 0 {
+								ok = true
+							}
+						}
+					}
+				}
+				if !ok {
+					report("entry-of-two", "encode", "altered", "a map value the wire type cannot carry was neither refused nor carried exactly", hexs(enc.Bytes))
+					return
+				}
+			}
+		}
+		c.Outcome("refused-or-exact")
+	}
 }
 
 func init() {
